@@ -813,6 +813,16 @@ private:
 
               // Use atomic CAS to safely claim exit slot - prevents race where multiple
               // threads simultaneously decide to exit and drop below _initialSize
+              // A worker whose spawner has not inserted it into _threads yet (the
+              // spawner is still between creating the thread and taking _mutex) must
+              // not retire: the spawner would then register a thread object that no
+              // longer serves the queue, the pool would count it against _maxSize and
+              // never spawn a replacement, and queued tasks would be stranded.
+              if (_workerScaling && _threads.find(std::this_thread::get_id()) == _threads.end())
+              {
+                continue;
+              }
+
               if (_workerScaling)
               {
                 int currentExited = _threadsExited.load(std::memory_order_acquire);
